@@ -1287,3 +1287,21 @@ def run_scenario(st, case, fn):
     finally:
         if S: S.close()
     return finish(res, case.get("kind", "?"))
+
+def corpus_u16_cleared(S, rng):
+    """A never-used table at offset 64 KB (after LZ4_loadDict of < 8 bytes, or LZ4_attach_dictionary on a fresh stream),
+    then a small fast-reset one-shot: LZ4_prepareTable skips its checks (clearedTable), the 16-bit table is used at
+    indices >= 65536 and stores truncated indices.  Output must round-trip and the model must follow the truncation
+    (Model.Fast.idx)."""
+    src = (b"abcdefghijklmnopqrstuvwxyz0123456789" * 40)[:1000]
+    a = S.arena.alloc(len(src)); S.write(a, src)
+    da = S.arena.alloc(200); S.write(da, rng.randbytes(200))
+    S.f_new(0); S.f_load(0, da, 5)
+    S.f_oneshot(0, "fr", a, len(src), bound(len(src)), 1)
+    S.f_oneshot(0, "fr", a, len(src), bound(len(src)), 1)
+    S.f_new(1); S.f_new(9); S.f_load(9, da, 200)
+    S.f_attach(1, 9)
+    S.f_oneshot(1, "fr", a, 300, bound(300), 1)
+    S.f_reset_fast(1); S.f_attach(1, 9)
+    S.f_continue(1, a, 300, bound(300), 1, expect_ok=True)
+    S.res["stats"]["corpus_u16_cleared"] += 1
